@@ -374,7 +374,7 @@ struct BigInt {
                 storage_[move] = 0;
             } while (move != 0U);
 
-            while (storage_[index] == 0) {
+            while ((index != 0U) && (storage_[index] == 0)) {
                 --index;
             }
 
